@@ -1091,6 +1091,9 @@ fn t_event(cfg: &Cfg) {
     let iters = cfg_get(cfg, "iters", 2) as usize;
     let flips = cfg_get(cfg, "flips", 2) as usize;
     let p_budget = cfg_get(cfg, "p_budget", 0) as u64;
+    // half of the executions: every waiter thread ends with a wait that has no budget and never
+    // re-polls by itself; the main thread's final set() (nothing resets after it) must wake it
+    let final_wake = cfg_get(cfg, "final_wake", 0) != 0;
     let ev = Arc::new(GenericManualResetEvent::<M>::new(false));
     let hist = Arc::new(History::default());
     let next_wait = Arc::new(AtomicUsize::new(0));
@@ -1119,25 +1122,38 @@ fn t_event(cfg: &Cfg) {
             }
         }));
     }
+    let mut ws = Vec::new();
     for i in 0..n {
         let (ev, hist, next_wait) = (ev.clone(), hist.clone(), next_wait.clone());
-        hs.push(thread::spawn(move || {
+        ws.push(thread::spawn(move || {
             for _ in 0..iters {
                 let id = next_wait.fetch_add(1, SeqCst) as u32;
-                // every wait carries a budget: nothing guarantees a later set() in this scenario
+                // these waits carry a budget: nothing guarantees a later set() while the flippers run
                 let b = if draw(100) < p_budget { draw(4) as u32 } else { 6 + draw(6) as u32 };
                 let w = LoggedWait { fut: Some(ev.wait()), hist: hist.clone(), thread: 10 + i as u32, id, completed: false };
                 let _ = block_on(budgeted_spin(w, b));
+            }
+            if final_wake {
+                let id = next_wait.fetch_add(1, SeqCst) as u32;
+                block_on(LoggedWait { fut: Some(ev.wait()), hist: hist.clone(), thread: 10 + i as u32, id, completed: false });
             }
         }));
     }
     for h in hs {
         h.join().unwrap();
     }
-    // a final set() with a waiter that must complete (liveness), then the state is observed
+    if !final_wake {
+        for h in ws.drain(..) {
+            h.join().unwrap();
+        }
+    }
+    // a final set() with waiters that must complete (liveness), then the state is observed
     let inv = hist.stamp();
     ev.set();
     hist.record(inv, 99, EV_SET, 0, 0);
+    for h in ws {
+        h.join().unwrap();
+    }
     let id = next_wait.fetch_add(1, SeqCst) as u32;
     block_on(LoggedWait { fut: Some(ev.wait()), hist: hist.clone(), thread: 99, id, completed: false });
     let inv = hist.stamp();
@@ -1160,6 +1176,7 @@ fn cfg_event(rng: &mut Rng) -> Cfg {
     let mut c = Cfg::new();
     base_cfg(rng, &mut c);
     c.insert("flips".into(), rng.range(1, 4));
+    c.insert("final_wake".into(), rng.pct(50) as i64);
     c
 }
 
